@@ -130,6 +130,7 @@ class Ctx:
         for logic in ("QF_NRA", None):
             s2 = z3.SolverFor(logic) if logic else z3.Solver()
             s2.set("timeout", self.timeout_ms * mult)
+            s2.set("rlimit", self.timeout_ms * mult * 1500)  # nlsat does not always honour the timeout
             for c in self.path:
                 s2.add(c)
             for c in extra:
@@ -829,6 +830,7 @@ class SV:
 def _fresh_check(formulas, timeout_ms, logic="QF_NRA"):
     s = z3.SolverFor(logic) if logic else z3.Solver()
     s.set("timeout", timeout_ms)
+    s.set("rlimit", timeout_ms * 1500)  # nlsat does not always honour the timeout
     for f in formulas:
         s.add(f)
     t = time.time()
